@@ -387,7 +387,7 @@ func (g *specGen) Generate() J {
 			nf["application/problem+json"] = J{"schema": nf["application/json"].(J)["schema"]}
 			g.count("component-response:two-json")
 		}
-		comps["responses"] = J{"NotFound": J{"description": "nf", "content": nf}}
+		comps["responses"] = J{"NotFound": J{"description": "nf", "content": nf}, "Denied": J{"description": "denied"}}
 	}
 	if r.Chance(30) {
 		comps["parameters"] = J{"limit": J{"name": "limit", "in": "query", "schema": J{"type": "integer"}}}
@@ -485,6 +485,12 @@ func (g *specGen) Generate() J {
 			}
 			if _, ok := comps["responses"]; ok && r.Chance(25) {
 				op["responses"].(J)["404"] = J{"$ref": "#/components/responses/NotFound"}
+			}
+			if _, ok := comps["responses"]; ok && r.Chance(20) {
+				// one content-less component response under two status codes of the same operation
+				op["responses"].(J)["401"] = J{"$ref": "#/components/responses/Denied"}
+				op["responses"].(J)["403"] = J{"$ref": "#/components/responses/Denied"}
+				g.count("op:same-component-response-twice")
 			}
 			if _, ok := comps["securitySchemes"]; ok && r.Chance(40) {
 				switch r.Intn(3) {
